@@ -22,7 +22,11 @@ def nodupB : List String → Bool
 def wfDataB (cap : Nat) (ds : List D) : Bool :=
   nodupB (ds.map (·.name)) && pairwiseB apartB ds && ds.all (fun d => d.offset + d.size ≤ cap)
 
-def isSublistB (l1 l2 : List D) : Bool := l1.all (fun d => l2.contains d)
+/-- order-preserving sublist test (the conversions' field lists are sublists of the variants' lists, in order) -/
+def isSublistB : List D → List D → Bool
+  | [], _ => true
+  | _ :: _, [] => false
+  | a :: as, b :: bs => if a = b then isSublistB as bs else isSublistB (a :: as) bs
 
 def convWFB (dr : String → Bool) (cap : Nat) (s0 s : Spec) : Bool :=
   wfDataB cap s0.data && wfDataB cap s.data &&
